@@ -40,4 +40,19 @@ rt|all)
   $CC -g -no-pie -o $OUT/runner_rt $OUT/rt_core.o $OUT/rt_ops.o $OUT/rt_table.o $OUT/rt_h_*.o $OUT/ds_*.o $OUT/lin.o $OUT/lib/*.o $OUT/vsched.o -ldl -lm
   ;;&
 esac
+case $T in
+ctx|all)
+  # C19: fiber_context.c alone, six variants, gcc (split stacks need it)
+  for strat in split mmap malloc; do
+    for fast in 1 0; do
+      S=$(echo $strat | tr a-z A-Z)
+      FL="-O1 -g -fno-stack-protector -DFIBER_STACK_$S -I$REPO/include -Wno-deprecated-declarations"
+      [ $strat = split ] && FL="$FL -fsplit-stack -Wl,--wrap=__splitstack_releasecontext"
+      [ $fast = 1 ] && FL="$FL -DFIBER_FAST_SWITCHING"
+      run gcc $FL $REPO/src/fiber_context.c $V/harness/ctx_runner.c -o $OUT/ctx_${strat}_$([ $fast = 1 ] && echo asm || echo ucontext) -lpthread -Wl,--wrap=free -Wl,--wrap=munmap
+    done
+  done
+  waitall
+  ;;&
+esac
 echo "build ok: $T"
